@@ -23,15 +23,20 @@ META = {
              "within tolerance."),
     "note": ("partial: the theorems bound the METHOD error in real arithmetic; rounding error and agreement with std are measured "
              "(a test, exhaustive for exp/sigmoid/tanh in the thorough tier). Real-number axioms of the Coq standard library are used "
-             "(listed in the evidence). The f64 std functions rounded to f32 are the reference oracle (same as the crate's own tests)."),
+             "(listed in the evidence) plus the primitive-integer axioms Coq-Interval computes with. Primary reference = the function in f64 "
+             "rounded once (sigmoid: the documented f32 formula with a correctly rounded exp); the platform's f32 routines named by the docs "
+             "are a secondary reference. Known findings on the unchanged code: F54 Sin/Cos exceed the documented absolute error for large "
+             "|x| (generic ISA up to 6.6e-7 from |x|~5000; FMA ISAs 3.6e-7 on a handful of inputs |x|>45000); F55 tanh is 4 ULP from glibc "
+             "tanhf near 0.473 (2 ULP from the correctly rounded value)."),
     "technique": "Coq-Interval proofs over constants pinned from the Rust source + exhaustive/stratified ULP measurement on every ISA",
 }
 GROUP = "vecmath"
 REQ = "From RV Require Import Prelude.\nFrom VecMath Require Import VecMathModel.\nOpen Scope N_scope."
-THEOREMS = ["C19_exp_poly_abs", "C19_exp_poly_rel", "C19_ln2_split", "C19_inv_ln2", "C19_exp_range_reduction",
-            "C19_exp_method_error", "C19_tanh_poly", "C19_tanh_tiny", "C19_tanh_saturation",
-            "C19_sin_rational", "C19_two_pi_split", "C19_sin_range_reduction", "C19_erf_coeff_sum",
-            "C19_softmax_positive", "C19_softmax_sums_to_one", "C19_softmax_shift_invariant", "C19_nonvacuous"]
+# C19_method_errors is the conjunction of the 13 Interval-based theorems of Props_C19.v (C19_exp_poly_abs, C19_exp_poly_rel,
+# C19_ln2_split, C19_inv_ln2, C19_exp_range_reduction, C19_exp_method_error, C19_tanh_poly, C19_tanh_tiny, C19_tanh_saturation,
+# C19_sin_rational, C19_two_pi_split, C19_sin_range_reduction, C19_erf_coeff_sum) and of C19_nonvacuous; it is listed as one
+# obligation because `Print Assumptions` costs several seconds per Interval-dependent theorem.
+THEOREMS = ["C19_method_errors", "C19_softmax_positive", "C19_softmax_sums_to_one", "C19_softmax_shift_invariant"]
 
 # ------------------------------------------------------------------ pins: f32 literal -> exact rational
 STD_CONSTS = {  # decimal expansions of the std::f32::consts items the sources name
